@@ -585,7 +585,7 @@ pub fn run(args: &Args) {
     }
     let mut rep = Report::new(args, Level::Exploration);
     let sp = space_by_name("ser", args);
-    let (acc, complete) = common::run_space(sp.as_ref(), args, 64);
+    let (acc, complete) = common::run_space(sp.as_ref(), args, 32);
     rep.set("schemas_total", sp.units());
     rep.set("type_alphabet", types().iter().map(|t| t.src()).collect::<Vec<_>>());
     common::fold(&mut rep, "ser", acc);
